@@ -36,7 +36,7 @@ Proof.
   intros (H1 & H2 & H3 & H4). unfold trig_put. destruct (putq s) as [|r q]; simpl.
   { repeat split; auto. }
   unfold admit_put. destruct (Nat.ltb_spec (used s) (cap s)); simpl; [|repeat split; auto].
-  destruct (match s_kind s with KBelt => _ | _ => true end); simpl; [|repeat split; auto].
+  destruct (match s_kind s with KBuffer => _ | _ => _ end); simpl; [|repeat split; auto].
   unfold Inv, used, contents, reserved in *; simpl. rewrite app_length; simpl.
   repeat split; auto. lia.
 Qed.
@@ -149,6 +149,7 @@ Proof.
       * tg HX. simpl. exact I.
       * tg HX. tg I. simpl. exact I0.
       * tg HX. simpl. exact I.
+      * tg HX. simpl. exact I.
     + apply inv_drop_putres. exact HI.
   - (* Get *)
     destruct (existsb (owns2 p t) (getres s)) eqn:E; simpl; auto.
@@ -213,6 +214,7 @@ Proof.
       repeat split; auto; [lia|].
       rewrite app_assoc in X2. apply NoDup_app_l in X2. exact X2.
   - (* SetGate *) apply inv_set_gate, HI.
+  - (* TrigPut *) tp. simpl. apply trig_put_inv, HI.
   - (* Sync *) destruct (next s <=? n); simpl; auto; apply inv_set_next, HI.
 Qed.
 
@@ -252,6 +254,8 @@ Proof.
       destruct (trig_get_fields _ _ _ E) as (_ & -> & -> & _). simpl. auto.
     + destruct (trig_get _) as [[s2 ts]|] eqn:E; simpl; auto.
       destruct (trig_get_fields _ _ _ E) as (_ & -> & -> & _). simpl. auto.
+    + destruct (trig_get _) as [[s2 ts]|] eqn:E; simpl; auto.
+      destruct (trig_get_fields _ _ _ E) as (_ & -> & -> & _). simpl. auto.
   - destruct (existsb (owns2 p t) (getres s)); simpl; auto.
     destruct (index_where (tokb2 t) (getres s)) as [i|]; simpl; auto.
     destruct (nth_error (getres s) i) as [[r it]|]; simpl; auto.
@@ -284,6 +288,7 @@ Proof.
     + intros H. left. apply in_app_or in H as [H|H]; apply in_or_app; auto.
       left. eapply remove_first_incl; eauto.
   - auto.
+  - tp. simpl. destruct (trig_put_fields s) as (_ & -> & -> & _). auto.
   - destruct (next s <=? n); simpl; auto.
 Qed.
 
@@ -347,6 +352,9 @@ Proof.
     split; auto. split; auto.
     destruct (trig_get_fields _ _ _ E3) as (_ & -> & _).
     destruct (trig_get_fields _ _ _ E2) as (_ & -> & _). simpl.
+    apply in_or_app; right; left; auto.
+  - destruct (trig_get_inv _ HX) as (s2 & ts & E2 & I2). rewrite E2. simpl. intros HS.
+    split; auto. split; auto. destruct (trig_get_fields _ _ _ E2) as (_ & -> & _). simpl.
     apply in_or_app; right; left; auto.
   - destruct (trig_get_inv _ HX) as (s2 & ts & E2 & I2). rewrite E2. simpl. intros HS.
     split; auto. split; auto. destruct (trig_get_fields _ _ _ E2) as (_ & -> & _). simpl.
@@ -426,6 +434,7 @@ Proof.
       destruct (trig_get s2) as [[s3 ts3]|] eqn:E3; simpl; auto.
       eapply trig_get_getres; eauto. eapply trig_get_getres; eauto.
     + destruct (trig_get _) as [[s2 ts]|] eqn:E2; simpl; auto. eapply trig_get_getres; eauto.
+    + destruct (trig_get _) as [[s2 ts]|] eqn:E2; simpl; auto. eapply trig_get_getres; eauto.
   - destruct (existsb (owns2 p t) (getres s)); simpl; auto.
     destruct (index_where (tokb2 t) (getres s)) as [i|] eqn:EI; simpl; auto.
     destruct (nth_error (getres s) i) as [[r it]|]; simpl; auto.
@@ -449,5 +458,6 @@ Proof.
     tp. simpl. match goal with |- context [trig_put ?z] => destruct (trig_put_fields z) as (_ & _ & _ & _ & -> & _) end.
     eapply trig_get_getres; eauto.
   - auto.
+  - tp. simpl. destruct (trig_put_fields s) as (_ & _ & _ & _ & -> & _). auto.
   - destruct (next s <=? n); simpl; auto.
 Qed.
